@@ -73,6 +73,7 @@ ExpectedMsg == "GenericArray::from_iter expected " \o ToString(op.n) \o " items"
 RetCollect(r) ==
     /\ ~Idle /\ IsCollectOp(op.name) /\ op.phase = "idle"
     /\ r.vals = <<>> /\ r.obs = <<>>
+    /\ OpOwedEmpty                                      \* the source (and what it owned) has been dropped
     /\ IF r.err
        THEN /\ ~PanickingForm
             /\ r.outs = <<>>
@@ -93,14 +94,18 @@ RetCollect(r) ==
 \* any form unwinds if the source itself panicked
 UnwoundCollect(u) ==
     /\ ~Idle /\ IsCollectOp(op.name)
+    /\ (Strict => OpOwedEmpty)                          \* the source (and what it owned) has been dropped
     /\ \/ /\ op.phase = "unwinding"                       \* the source (or a destructor) panicked
           /\ (Strict => AllGotDropped)
        \/ /\ op.phase = "idle" /\ PanickingForm           \* the length-error panic
           /\ u.has_expected_msg                          \* the message says: expected N items
           /\ AllGotDropped
           /\ ~((Exact \/ SourceIsExact) /\ ~Ruled /\ op.truthful)
+    \* (after a destructor panic - lenient mode - what was not dropped, the source's own values included, may leak)
     /\ life' = [e \in DOMAIN life |->
-                  IF e \in SeqRange(op.got) \ op.gdropped THEN (IF Tracked THEN "abandoned" ELSE "dropped") ELSE life[e]]
+                  IF e \in (SeqRange(op.got) \ op.gdropped) \cup OwedIn(OpScope)
+                  THEN (IF Tracked THEN "abandoned" ELSE "dropped") ELSE life[e]]
+    /\ owed' = Restrict(owed, DOMAIN owed \ OwedIn(OpScope))
     /\ op' = NoOp
-    /\ UNCHANGED <<pool, loose, owed, heap, cfg>>
+    /\ UNCHANGED <<pool, loose, heap, cfg>>
 =============================================================================
